@@ -48,6 +48,6 @@ def direct_case(ctx, n):
       ctx.violation('C23/state-name', 'state_name %r after step %d, current state is %s' % (res.rest[k], k - 1, spec['names'][m.cur]), dict(wit, failing_step=k - 1))
       return
     fn = res.state_fn_ok[k]
-    if fn is not res.run.fns[m.cur] and fn is not res.run.raw[m.cur]:
+    if not res.run.is_handler_of(fn, m.cur):
       ctx.violation('C23/state-fn', 'state_fn %r after step %d, current state is %s' % (fn, k - 1, spec['names'][m.cur]), dict(wit, failing_step=k - 1))
       return
